@@ -189,7 +189,25 @@ def _shared_blocker_family():
     return out
 
 
+def _twin_family():
+    """the installed copy and the repository copy of one version (equal as packages, different objects) with different dependencies: an
+    any-of alternative of the first candidate fails, a clause of another dependency class empties with it, and the choice point moves on
+    to the twin -- whose own clauses must all be resolved"""
+    out = []
+    for inst_first, inst_second in (("RDEPEND", "PDEPEND"), ("DEPEND", "RDEPEND"), ("RDEPEND", "DEPEND"), ("BDEPEND", "RDEPEND")):
+        for src_cls in ("RDEPEND", "DEPEND", "BDEPEND"):
+            src = {"a": {"a": {"1": {src_cls: "a/z"}}, "y": {"1": {}}, "z": {"1": {}}}}
+            inst = {"a": {"a": {"1": {inst_first: "|| ( a/x a/y )", inst_second: "a/x"}}}}
+            for kind in ("upgrade", "min_install"):
+                out.append((src, inst, ["a/a"], kind))
+            # the same with two versions in the repository, the twin being the older one
+            src2 = {"a": {"a": {"1": {src_cls: "a/z"}, "2": {"RDEPEND": "a/missing"}}, "y": {"1": {}}, "z": {"1": {}}}}
+            out.append((src2, inst, ["a/a"], "upgrade"))
+    return out
+
+
 EXTRA += _shared_blocker_family()
+EXTRA += _twin_family()
 RECURSION_INPUTS = {"3206975074a0", "ddfdb71f8778"}
 BLOCKER_INPUTS = {"8624bce3c444", "c49c27792a00"}
 
